@@ -24,5 +24,6 @@ def run(col, configs, tier):
         guarded_soft(col, X.rule_u128_count_chunks, facts)
         guarded_soft(col, X.rule_index_widening, facts)
         guarded_soft(col, X.rule_naive_count_stages, facts)
+        guarded_soft(col, X.rule_compact_scratch_size, facts)
         from rules import c08
         guarded(col, c08.rule_mask_shift, facts)
